@@ -162,7 +162,16 @@ elif mode == 'interleave':
         def th(i, q):
             out[i] = run_one(q['text'], q['table'], q['btable'], s, i, q.get('header'), q.get('bheader'), q.get('init', ''))
         t0 = threading.Thread(target=th, args=(0, qa)); t1 = threading.Thread(target=th, args=(1, qb))
-        t0.start(); t1.start(); t0.join(60); t1.join(60)
+        t0.start(); t1.start(); t0.join(20); t1.join(20)
+        if t0.is_alive() or t1.is_alive():
+            # the two queries wait for each other (or one holds the other up for good): under this schedule they do not both finish
+            stuck = qa if t0.is_alive() else qb
+            bad.append({'schedule': sched_list, 'query': stuck['text'], 'solo': {k: v for k, v in stuck['solo'].items() if k != 'steps'}, 'interleaved': 'DID NOT FINISH within 20 s (the queries block each other)',
+                        'other_query': (qb if stuck is qa else qa)['text']})
+            print(json.dumps({'n': n, 'alternating': alternating, 'bad': bad}, default=repr))
+            sys.stdout.flush()
+            import os
+            os._exit(0)
         switches = sum(1 for i in range(1, len(sched_list)) if sched_list[i] != sched_list[i - 1])
         if switches >= 3: alternating += 1
         for i, q in ((0, qa), (1, qb)):
